@@ -117,3 +117,42 @@ pub(crate) fn board(when: &'static str, bitboard: &Bitboard) {
         }
     });
 }
+
+// ---- capture/promotion resolution -------------------------------------------------------------
+
+struct NullTx;
+
+impl inkayaku_uci::UciTx for NullTx {
+    fn id_name(&self, _: &str) {}
+    fn id_author(&self, _: &str) {}
+    fn uci_ok(&self) {}
+    fn ready_ok(&self) {}
+    fn best_move(&self, _: Option<inkayaku_uci::UciMove>, _: Option<inkayaku_uci::UciMove>) {}
+    fn copy_protection(&self, _: inkayaku_uci::ProtectionMessage) {}
+    fn registration(&self, _: inkayaku_uci::ProtectionMessage) {}
+    fn info(&self, _: &inkayaku_uci::Info) {}
+    fn option_check(&self, _: &str, _: bool) {}
+    fn option_spin(&self, _: &str, _: i32, _: i32, _: i32) {}
+    fn option_combo(&self, _: &str, _: &str, _: &[&str]) {}
+    fn option_button(&self, _: &str) {}
+    fn option_string(&self, _: &str, _: &str) {}
+    fn debug(&self, _: &str) {}
+}
+
+/// the search's horizon valuation (`search_quiescence` on a full window) of a position, from the
+/// point of view of the side to move, computed by the same `Search` type the engine runs
+pub struct Quiescence {
+    search: crate::engine::search::Search<NullTx, SimpleHeuristic, crate::engine::move_order::MvvLvaMoveOrder>,
+    _tx: std::sync::mpsc::Sender<crate::engine::search::SearchMessage>,
+}
+
+impl Quiescence {
+    pub fn new() -> Self {
+        let (tx, rx) = std::sync::mpsc::channel();
+        Self { search: crate::engine::search::Search::new(std::sync::Arc::new(NullTx), rx, SimpleHeuristic, crate::engine::move_order::MvvLvaMoveOrder, EngineOptions::default()), _tx: tx }
+    }
+
+    pub fn value(&mut self, bitboard: Bitboard) -> i32 {
+        self.search.verif_quiescence(bitboard)
+    }
+}
